@@ -69,7 +69,9 @@ namespace tl {
 static Val pool_value(uint64_t id, int which) {
   Val v;
   switch (id) {
-    case 0: v.raw = which == 1 ? "a" : std::string(130, 'q') + "tail"; break;  // 134 bytes: length and entry size in the U8 class
+    // value 1 is the empty string: the entry's value ends with a zero-length block exactly at the entry's bound;
+    // value 2 has 134 bytes: length and entry size in the U8 class
+    case 0: v.raw = which == 1 ? "" : std::string(130, 'q') + "tail"; break;
     case 128: {
       int32_t e[2] = {1, 2};
       if (which == 2) { e[0] = -70000; e[1] = 0x01020304; }
